@@ -40,7 +40,7 @@ func vRunOp(b *Bar, s *bState, call func()) bool {
 
 type vRef struct {
 	total, current, refill int64
-	trigger, aborted, rm  bool
+	trigger, aborted, rm   bool
 }
 
 func vSnap(s *bState) vRef {
